@@ -117,7 +117,7 @@ func (r *Run) branch(t *Term) bool {
 	if r.replaying() {
 		d := r.prefix[r.pos]
 		if d.K != 'b' {
-			panic(fmt.Sprintf("decision vector mismatch: want branch, have %v at %d", d, r.pos))
+			panic(fmt.Sprintf("decision vector mismatch: want branch, have %v at %d (prefix %s) at %s", d, r.pos, fmtTrace(r.prefix), r.where()))
 		}
 		r.record(d)
 		if d.C == 1 {
